@@ -40,6 +40,12 @@ type Scenario struct {
 	UnlockedWrites bool
 	// UnlockPoints: every Mutex/RWMutex release is followed by a scheduling point
 	UnlockPoints bool
+	// SeqBases: when set, a driver choice picks the sequence number at which the harness-made
+	// connections of this execution start
+	SeqBases []uint64
+	// MapOrder: the iteration order of every instrumented map range is an environment choice
+	// (rotations of the canonical order; counted by the fault bound)
+	MapOrder bool
 }
 
 var scenarios []*Scenario
@@ -143,7 +149,21 @@ func shortFunc(f string) string {
 func runOne(sc *Scenario, prefix []int, trace bool) *ExecReport {
 	x := &X{}
 	cfg := vs.Config{Prefix: prefix, MaxSteps: sc.MaxSteps, Trace: trace, AtomicPoints: sc.Atomic, NoPoison: sc.NoPoison, NoStalls: sc.NoStalls, UnlockedWrites: sc.UnlockedWrites, UnlockPoints: sc.UnlockPoints || forceUnlock}
-	res := vs.Run(cfg, func() { sc.Body(x) })
+	if sc.MapOrder {
+		vs.MapOrderChoices = true
+	}
+	body := sc.Body
+	if len(sc.SeqBases) > 0 {
+		body = func(x *X) {
+			seqBase = sc.SeqBases[x.Choose(len(sc.SeqBases))]
+			defer func() { seqBase = 0 }()
+			sc.Body(x)
+		}
+	}
+	res := vs.Run(cfg, func() { body(x) })
+	if sc.MapOrder {
+		vs.MapOrderChoices = false
+	}
 	rep := &ExecReport{Points: res.Points, Res: res}
 	rep.Choices = make([]int, len(res.Points))
 	for i, p := range res.Points {
